@@ -33,6 +33,7 @@ from labrea.cache import (Cache, CacheExistsRequest, CacheGetFailure, CacheGetRe
                           MemoryCache, NoCache)
 from labrea.computation import CallbackEffect, ChainedEffect, Computation
 from labrea.dataset import Dataset, abstractdataset, dataset
+from labrea.datasetclass import datasetclass
 from labrea.exceptions import (EvaluationError, InsufficientInformationError, KeyNotFoundError)
 from labrea.conditional import CaseWhenError, SwitchError
 from labrea.logging import Logged, LogRequest
@@ -142,7 +143,9 @@ class GetOnlyCache(Cache):
         if f == "forget":
             self.store.pop(fp, None)
         if f in ("miss", "failGet", "forget", "lieBlind"):
+            CACHE_LOG.append([self.cid, "get", json.loads(fp), "fault"])
             raise CacheGetFailure(evaluatable, options, self) from KeyError(fp)
+        CACHE_LOG.append([self.cid, "get", json.loads(fp), "hit" if fp in self.store else "miss"])
         try:
             return self.store[fp]
         except KeyError as e:
@@ -150,9 +153,12 @@ class GetOnlyCache(Cache):
 
     def set(self, evaluatable, options, value):
         f = self.script.pop(0) if self.script else "behave"
+        fp = evaluatable.fingerprint(options)
         if f in ("miss", "forget"):
+            CACHE_LOG.append([self.cid, "set", json.loads(fp), "dropped"])
             return
-        self.store[evaluatable.fingerprint(options)] = value
+        CACHE_LOG.append([self.cid, "set", json.loads(fp), "stored"])
+        self.store[fp] = value
 
 
 class _LogHandler(logging.Handler):
@@ -211,6 +217,14 @@ class LogDict(dict):
         return hit
 
 
+class _TierExpired(CacheGetFailure):
+    """a backend's own failure type: a CacheGetFailure with one more constructor argument"""
+
+    def __init__(self, evaluatable, options, cache, age):
+        super().__init__(evaluatable, options, cache)
+        self.age = age
+
+
 class ScriptedCache(Cache):
     """A backend that follows the Cache contract but misbehaves per script (C17)."""
 
@@ -218,6 +232,7 @@ class ScriptedCache(Cache):
         self.cid = cid
         self.store = {}
         self.script = []
+        self._tier = NoCache()
 
     def _next(self):
         return self.script.pop(0) if self.script else "behave"
@@ -233,23 +248,30 @@ class ScriptedCache(Cache):
             return True
         return False
 
+    def _failure(self, evaluatable, options):
+        """the contract says `get` raises CacheGetFailure: every second backend raises a SUBCLASS with a constructor
+        of its own, on behalf of an inner tier it delegates to (as tiered / wrapping backends do)"""
+        if self.cid % 2 == 1:
+            return _TierExpired(evaluatable, options, self._tier, 3)
+        return CacheGetFailure(evaluatable, options, self)
+
     def get(self, evaluatable, options):
         if self._blind("get"):
-            raise CacheGetFailure(evaluatable, options, self)
+            raise self._failure(evaluatable, options)
         fp = evaluatable.fingerprint(options)
         f = self._next()
         if f in ("miss", "failGet"):
             self._log("get", fp, "fault")
-            raise CacheGetFailure(evaluatable, options, self)
+            raise self._failure(evaluatable, options)
         if f == "forget":
             self.store.pop(fp, None)
             self._log("get", fp, "fault")
-            raise CacheGetFailure(evaluatable, options, self)
+            raise self._failure(evaluatable, options)
         if fp in self.store:
             self._log("get", fp, "hit")
             return self.store[fp]
         self._log("get", fp, "miss")
-        raise CacheGetFailure(evaluatable, options, self)
+        raise self._failure(evaluatable, options)
 
     def exists(self, evaluatable, options):
         if self._blind("exists"):
@@ -405,6 +427,26 @@ class Graph:
                 self._reg_factory(dn)
             if mn is not None and not isinstance(kw.get('domain'), Evaluatable):
                 self.built[mn] = self.reg(obj.domain, mn)
+        elif k == "apply" and n.get("dsclass"):
+            spec = n["dsclass"]
+            ns = {"__annotations__": {}}
+            raws = []
+            for name, mid in spec["members"]:
+                if name in spec.get("annotated", []):
+                    # an annotated member may be a plain constant (the decorator wraps it)
+                    kind, v = self.raw_or_node(mid)
+                    ns["__annotations__"][name] = object
+                    ns[name] = v
+                    if kind == "raw":
+                        raws.append((name, mid))
+                else:
+                    ns[name] = self.node(mid)
+            bases = tuple(self.node(b) for b in spec.get("bases", []))
+            import types as _types
+            # (the class statement `class name(*bases): ...` followed by the decorator)
+            obj = datasetclass(_types.new_class(spec["name"], bases, exec_body=lambda d, _ns=ns: d.update(_ns)))
+            for name, mid in raws:
+                self.built[mid] = self.reg(getattr(obj, name), mid)
         elif k == "apply":
             e = self.node(n["e"])
             kind, f = self.raw_or_node(n["f"])
@@ -765,20 +807,28 @@ def _hashable(x):
 
 
 def _scribble(x):
+    """edit a value in place at every depth: containers reached through a tuple (shallowly immutable) or through the
+    arguments recorded in a harness function's result are edited too"""
     if isinstance(x, dict):
         for k in list(x):
-            if isinstance(x[k], (dict, list)):
+            if isinstance(x[k], (dict, list, tuple, pylib.App)):
                 _scribble(x[k])
             else:
                 x[k] = "scribbled"
         x["scribbled-key"] = 1
     elif isinstance(x, list):
         for i in range(len(x)):
-            if isinstance(x[i], (dict, list)):
+            if isinstance(x[i], (dict, list, tuple, pylib.App)):
                 _scribble(x[i])
             else:
                 x[i] = "scribbled"
         x.append("scribbled")
+    elif isinstance(x, tuple):
+        for y in x:
+            _scribble(y)
+    elif isinstance(x, pylib.App):
+        for y in list(x.a) + list(x.k.values()):
+            _scribble(y)
 
 
 def _eq(a, b):
@@ -914,6 +964,12 @@ def run_eval_op(g, op):
     name = op["op"]
     obj = g.node(op["n"])
     o = dec(op["o"])
+    if op.get("reuse_o") and getattr(g, "last_o", None) is not None:
+        # the caller keeps ONE dictionary object and edits it in place between calls
+        g.last_o.clear()
+        g.last_o.update(o)
+        o = g.last_o
+    g.last_o = o
     before = [snapshot(d) for d in g.inputs] + [snapshot(o)]
     del CALL_LOG[:], CACHE_LOG[:], LOG_LOG[:], REQ_LOG[:], TCHK_LOG[:], READ_LOG[:]
     subst = None
@@ -949,10 +1005,20 @@ def run_eval_op(g, op):
             if name == "evaluate":
                 # both public entry points of an evaluation: `x.evaluate(o)` and the call syntax `x(o)`
                 _EVAL_COUNT[0] += 1
-                rv = obj(o) if _EVAL_COUNT[0] % 3 == 0 else obj.evaluate(o)
-                r = ["ok", enc(rv)]
-                if op.get("mutate_result"):
-                    _scribble(rv)       # the caller edits what it was given, in place and at every depth
+                # (calling a dataset class is its constructor — no request is issued for the class itself — so those
+                # are always evaluated through `evaluate`)
+                rv = obj(o) if (_EVAL_COUNT[0] % 3 == 0 and not isinstance(obj, type)) else obj.evaluate(o)
+                if op.get("mutate_result") == "lazy":
+                    # a consumer of a lazily produced sequence that edits each element as soon as it gets it
+                    seen = []
+                    for el in rv:
+                        seen.append(enc(el))
+                        _scribble(el)
+                    r = ["ok", seen]
+                else:
+                    r = ["ok", enc(rv)]
+                    if op.get("mutate_result"):
+                        _scribble(rv)       # the caller edits what it was given, in place and at every depth
             elif name == "validate":
                 obj.validate(o)
                 r = ["ok", None]
